@@ -182,8 +182,10 @@ DFKconvert(void *source, void *dest, int32 ntype, int32 num_elm, int16 acc_mode,
     H4V_CHECK(source != NULL && dest != NULL && num_elm >= 0, "DFKconvert buffers");
     H4V_CHECK(PG_R_OK(source, (size_t)num_elm * C03_W) && PG_W_OK(dest, (size_t)num_elm * C03_W),
               "DFKconvert: both buffers hold num_elm elements");
-    g_conv_src  = source;
-    g_conv_dest = dest;
+    if (g_fw_mode) {
+        g_conv_src  = source;
+        g_conv_dest = dest;
+    }
     H4V_ND(int, conv_fail);
     if (conv_fail) {
         g_iofail = 1;
@@ -236,9 +238,11 @@ HDmemfill(void *dest, const void *src, uint32 item_size, uint32 num_items)
 {
     H4V_CHECK(dest != NULL && src != NULL, "HDmemfill buffers");
     H4V_CHECK(PG_W_OK(dest, (size_t)item_size * num_items), "HDmemfill: the destination holds num_items items");
-    g_fill_dest  = dest;
-    g_fill_bytes = (unsigned long)item_size * num_items;
-    g_fill_user  = (g_attr != NULL && src == (const void *)g_attr->data->values);
+    if (g_fw_mode) {
+        g_fill_dest  = dest;
+        g_fill_bytes = (unsigned long)item_size * num_items;
+        g_fill_user  = (g_attr != NULL && src == (const void *)g_attr->data->values);
+    }
     return dest;
 }
 
@@ -247,9 +251,11 @@ NC_arrayfill(void *lo, size_t len, nc_type type)
 {
     H4V_CHECK(lo != NULL, "NC_arrayfill buffer");
     H4V_CHECK(PG_W_OK(lo, len), "NC_arrayfill: the destination holds len bytes");
-    g_fill_dest  = lo;
-    g_fill_bytes = len;
-    g_fill_user  = 0;
+    if (g_fw_mode) {
+        g_fill_dest  = lo;
+        g_fill_bytes = len;
+        g_fill_user  = 0;
+    }
 }
 
 NC_attr **
